@@ -448,6 +448,22 @@ inductive Frame where
   /-- several JSON values on one line: a decoder reads them one after the other, a line reader refuses the line -/
   | packed (vs : List Json)
 
+/-- JSON white space (RFC 8259 §2): what `json.Unmarshal` skips in front of and behind a value — space, tab, LF, CR.
+    (`bytes.TrimSpace`, the read loop's blank-line test, trims more: VT, FF, U+0085, U+00A0; a line `"\v{…}"` is therefore
+    neither blank nor JSON.) -/
+def jsonWs (c : Nat) : Bool := c == 32 || c == 9 || c == 10 || c == 13
+
+/-- a stdout line that holds one JSON value with some bytes in front of it and some behind it -/
+structure RawLine where
+  lead : Text
+  v : Json
+  trail : Text
+
+/-- what `json.Unmarshal(line, &rawMessage)` makes of such a line: the value when everything around it is JSON white space,
+    an error (the line is logged and skipped — a decoder: a syntax error) otherwise -/
+def lexLine (l : RawLine) : Frame :=
+  if l.lead.all jsonWs && l.trail.all jsonWs then .value l.v else .garbage
+
 structure StdioSt where
   halt : Option Halt := none
   /-- `t.closed` -/
